@@ -91,4 +91,24 @@ theorem Heap.get_set_ne (h : Heap) {a b : Nat} (hab : a ≠ b) (m : List (String
       split <;> simp [ih]
 
 
+theorem lookup_filter_ext {k : String} (hk : isExtKey k = true) :
+    ∀ kvs : KVs, Val.lookup k (kvs.filter fun kv => isExtKey kv.1) = Val.lookup k kvs
+  | [] => rfl
+  | (k', v) :: r => by
+    by_cases hkk : k = k'
+    · subst hkk; simp [List.filter, hk, Val.lookup]
+    · by_cases he : isExtKey k' = true
+      · simp [List.filter, he, Val.lookup, hkk, lookup_filter_ext hk r]
+      · simp [List.filter, he, Val.lookup, hkk, lookup_filter_ext hk r]
+
+theorem isExtKey_xValue : isExtKey xValue = true := by decide
+
+theorem lookup_setNameKVs_ne {k pname n : String} (hk : k ≠ "name") (kvs : KVs) :
+    Val.lookup k (setNameKVs pname n kvs) = Val.lookup k kvs := by
+  unfold setNameKVs
+  split
+  · exact lookup_insert_ne hk _ _
+  · rfl
+
+
 end CV.Secrets
